@@ -4,4 +4,4 @@
 D="$(cd "$1" && pwd)"; S=$(mktemp -d /tmp/evalseed.XXXXXX); trap 'rm -rf "$S"' EXIT
 git -C /repo archive HEAD | tar -x -C "$S"
 (cd "$S" && patch -s -p1 < "$D/patch.diff") || { echo "patch does not apply"; exit 2; }
-OCCHECK_REPO="$S" "${OCCHECK_BIN:-/verif/bin/occheck}" scan
+OCCHECK_VERIF=/verif OCCHECK_REPO="$S" "${OCCHECK_BIN:-/verif/bin/occheck}" scan
